@@ -138,7 +138,9 @@ func (r *request) buildHTTP(mediaType, basePath string, producers map[string]run
 	r.buf = bytes.NewBuffer(nil)
 	if r.payload != nil || len(r.formFields) > 0 || len(r.fileFields) > 0 {
 		body = r.buf
-		if r.isMultipart(mediaType) {
+		// the pipe is fed by the multipart writer, which only runs when there are
+		// form fields or files: any other payload goes through r.buf or is a reader
+		if r.isMultipart(mediaType) && (len(r.formFields) > 0 || len(r.fileFields) > 0) {
 			pr, pw = io.Pipe()
 			body = pr
 		}
